@@ -20,7 +20,7 @@ for p in props:
     tree = ast.parse(src)
     for node in tree.body:
         if isinstance(node, ast.Assign) and getattr(node.targets[0], "id", "") in ("MANIFEST", "LEVEL"):
-            ns[node.targets[0].id] = ast.literal_eval(node.value)
+            ns[node.targets[0].id] = eval(compile(ast.Expression(node.value), path, 'eval'), {'dict': dict})
     m = ns["MANIFEST"]
     checks.append(dict(
         property_id=pid,
